@@ -97,6 +97,88 @@ where
     o
 }
 
+/// Canonical renumbering of states: breadth-first from the start state, following edges in the
+/// order (tokens by index, then rules by index). Returns old index -> new index.
+pub fn canonical_state_order<T: St>(sg: &StateGraph<T>) -> Vec<usize>
+where
+    usize: AsPrimitive<T>,
+{
+    let n = usize::from(sg.all_states_len());
+    let mut map = vec![usize::MAX; n];
+    let mut next = 0;
+    let mut q = std::collections::VecDeque::new();
+    let s0 = usize::from(sg.start_state());
+    map[s0] = next;
+    next += 1;
+    q.push_back(s0);
+    while let Some(s) = q.pop_front() {
+        let mut es: Vec<(u8, usize, usize)> = sg
+            .edges(StIdx(s.as_()))
+            .iter()
+            .map(|(k, v)| match k {
+                Symbol::Token(t) => (0u8, usize::from(*t), usize::from(*v)),
+                Symbol::Rule(r) => (1u8, usize::from(*r), usize::from(*v)),
+            })
+            .collect();
+        es.sort();
+        for (_, _, t) in es {
+            if t < n && map[t] == usize::MAX {
+                map[t] = next;
+                next += 1;
+                q.push_back(t);
+            }
+        }
+    }
+    for m in map.iter_mut() {
+        if *m == usize::MAX {
+            *m = next;
+            next += 1;
+        }
+    }
+    map
+}
+
+/// Dump of graph + table with states renumbered canonically (so that two isomorphic automata
+/// whose states were merely created in a different order dump identically).
+pub fn dump_canonical<T: St>(g: &YaccGrammar<T>, sg: &StateGraph<T>, st: &StateTable<T>) -> String
+where
+    usize: AsPrimitive<T>,
+{
+    let map = canonical_state_order(sg);
+    let n = map.len();
+    let mut inv = vec![0usize; n];
+    for (old, new) in map.iter().enumerate() {
+        inv[*new] = old;
+    }
+    let mut o = String::new();
+    writeln!(o, "canonical start={} states={n}", map[usize::from(st.start_state())]).ok();
+    for new in 0..n {
+        let old = StIdx::<T>(inv[new].as_());
+        let acts: Vec<String> = g
+            .iter_tidxs()
+            .map(|t| match st.action(old, t) {
+                Action::Shift(s) => format!("s{}", map[usize::from(s)]),
+                a => action_str(a),
+            })
+            .collect();
+        let gotos: Vec<String> = g.iter_rules().map(|r| st.goto(old, r).map(|x| map[usize::from(x)].to_string()).unwrap_or_else(|| ".".into())).collect();
+        let items = |is: &lrtable_items::Items<T>| -> Vec<String> {
+            let mut v: Vec<String> = is.iter().map(|((p, d), c)| format!("({},{}):{:?}", usize::from(*p), usize::from(*d), c.iter_set_bits(..).collect::<Vec<_>>())).collect();
+            v.sort();
+            v
+        };
+        writeln!(o, "cstate {new}: actions=[{}] gotos=[{}] state_actions={:?} state_shifts={:?} core_reduces={:?} reduce_only={} core={:?} closed={:?}", acts.join(" "), gotos.join(" "), st.state_actions(old).map(usize::from).collect::<Vec<_>>(), st.state_shifts(old).map(usize::from).collect::<Vec<_>>(), st.core_reduces(old).map(usize::from).collect::<Vec<_>>(), st.reduce_only_state(old), items(&sg.core_state(old).items), items(&sg.closed_state(old).items)).ok();
+    }
+    if let Some(c) = st.conflicts() {
+        let mut sr: Vec<(usize, usize, usize)> = c.sr_conflicts().map(|(t, p, s)| (usize::from(*t), usize::from(*p), map[usize::from(*s)])).collect();
+        let mut rr: Vec<(usize, usize, usize, usize)> = c.rr_conflicts().map(|(t, p1, p2, s)| (usize::from(*t), usize::from(*p1).min(usize::from(*p2)), usize::from(*p1).max(usize::from(*p2)), map[usize::from(*s)])).collect();
+        sr.sort();
+        rr.sort();
+        writeln!(o, "conflicts sr={sr:?} rr={rr:?}").ok();
+    }
+    o
+}
+
 pub fn dump_graph<T: St>(sg: &StateGraph<T>) -> String
 where
     usize: AsPrimitive<T>,
@@ -125,6 +207,14 @@ pub mod lrtable_items {
 
 /// Parse a token-index input and render the outcome canonically (tree, errors, repair sets sorted).
 pub fn parse_dump<T: St>(g: &YaccGrammar<T>, st: &StateTable<T>, toks: &[usize], recov: bool) -> String
+where
+    usize: AsPrimitive<T>,
+    T: TryFrom<usize>,
+{
+    parse_dump_mapped(g, st, toks, recov, None)
+}
+
+pub fn parse_dump_mapped<T: St>(g: &YaccGrammar<T>, st: &StateTable<T>, toks: &[usize], recov: bool, state_map: Option<&[usize]>) -> String
 where
     usize: AsPrimitive<T>,
     T: TryFrom<usize>,
@@ -178,7 +268,8 @@ where
                         })
                         .collect();
                     reps.sort();
-                    write!(o, "err@{} st={} repairs={reps:?} ", pe.lexeme().span().start(), usize::from(pe.stidx())).ok();
+                    let stn = usize::from(pe.stidx());
+                    write!(o, "err@{} st={} repairs={reps:?} ", pe.lexeme().span().start(), state_map.map(|m| m[stn]).unwrap_or(stn)).ok();
                 }
             }
             write!(o, "nerrs={}", if applied { "n/a".to_string() } else { errs.len().to_string() }).ok();
